@@ -9,7 +9,7 @@ def run(ctx):
         ctx, "C05",
         runs=[dict(label="forest", quick=40, thorough=400, features={"bid": True}, ticks=(0.125, 0.1), crash="none"),
               dict(label="crash", quick=15, thorough=150, features={}, ticks=(0.125,), crash="all")],
-        preds=["C05", "C06"],
+        preds=["C05", "C05s", "C06"],
         rule=("random kernel programs (nested frames via 'in', primary-child overrides via 'under', several children, "
               "transitions, plain and conditional auxiliaries, stop/abort bids, injected exceptions); after EVERY runner "
               "send the framer's status, active outline, elapsed and recurred are compared with the Coq model (vm_compute, "
